@@ -5,6 +5,7 @@ import (
 	"fmt"
 	"math"
 	"path/filepath"
+	"strings"
 
 	"github.com/mutagen-io/mutagen/pkg/comparison"
 	"github.com/mutagen-io/mutagen/pkg/extension"
@@ -93,6 +94,10 @@ func (u *URL) EnsureValid() error {
 			return errors.New("SSH URL with invalid port")
 		} else if len(u.Environment) != 0 {
 			return errors.New("SSH URL with environment variables")
+		} else if strings.HasPrefix(u.User, "-") {
+			return errors.New("SSH URL with username that begins with '-'")
+		} else if strings.HasPrefix(u.Host, "-") {
+			return errors.New("SSH URL with hostname that begins with '-'")
 		}
 	} else if u.Protocol == Protocol_Docker {
 		// In the case of Docker, we intentionally avoid validating environment
@@ -104,6 +109,10 @@ func (u *URL) EnsureValid() error {
 			return errors.New("Docker URL with empty container identifier")
 		} else if u.Port != 0 {
 			return errors.New("Docker URL with non-zero port")
+		} else if strings.HasPrefix(u.User, "-") {
+			return errors.New("Docker URL with username that begins with '-'")
+		} else if strings.HasPrefix(u.Host, "-") {
+			return errors.New("Docker URL with container identifier that begins with '-'")
 		}
 	} else {
 		return errors.New("unknown or unsupported protocol")
